@@ -115,6 +115,12 @@ def run_case(case: dict) -> CaseResult:
 
             for i, (t, _tid) in enumerate(sched):
                 env.loop.sim_at(t, go, i)
+        # the transport's flow-control callbacks (write buffer above / below its water marks) are no messages and
+        # no reason to skip a tick: they change nothing in the keepalive schedule
+        for on, off in case.get("pauses", []):
+            proto = env.dev.session.transport.proto
+            env.loop.sim_at(t0 + on * (K / 128), lambda p=proto: None if env.dev.session.transport.closing else p.pause_writing())
+            env.loop.sim_at(t0 + off * (K / 128), lambda p=proto: None if env.dev.session.transport.closing else p.resume_writing())
         # a waiter with a huge timeout observes the connection's fatal error
         env.spawn("probe", sess.cli.get_voice_assistant_configuration(timeout=1e5))
         from vf.simloop import START
@@ -196,6 +202,8 @@ def run_case(case: dict) -> CaseResult:
         classes.add("with_subscriber")
     if noise:
         classes.add("noise")
+    if case.get("pauses"):
+        classes.add("writing_paused")
     if not exact:
         classes.add("non_dyadic_K")
     res.classes = sorted(classes)
@@ -236,6 +244,9 @@ def _case(draw, tier):
         case["cut_at_k"] = draw(st.sampled_from([3.25, 5.75, 10.25, 20.75, 61.25]))
     if draw(st.integers(0, 2)) == 0:
         case["misalign"] = draw(st.sampled_from([1, 2, 2]))
+    if draw(st.integers(0, 3)) == 0:
+        on = 2 * draw(st.integers(0, 20 * 64))
+        case["pauses"] = [[on, on + 2 * draw(st.one_of(st.integers(1, 100), st.integers(64, 64 * 12)))]]
     return case
 
 
@@ -252,6 +263,10 @@ def enumerated(tier):
     for pat in range(1, 2**nslots, 4):
         msgs = [[64 * i + 33 if (64 * i + 33) % 2 else 64 * i + 32 + 1, 8] for i in range(nslots) if pat >> i & 1]
         yield {"K": 2.0, "noise": pat % 3 == 0, "msgs": msgs, "misalign": 1 + pat % 2}
+    for pat in range(3, 2**nslots, 16):
+        msgs = [[64 * i + 33 if (64 * i + 33) % 2 else 64 * i + 32 + 1, 8] for i in range(nslots) if pat >> i & 1]
+        yield {"K": 2.0, "noise": pat % 3 == 0, "msgs": msgs, "pauses": [[2 * (pat % 97), 2 * (pat % 97) + 64 * (1 + pat % 11)]]}
+    yield {"K": 2.0, "noise": False, "msgs": [], "pauses": [[2, 20 * 128]]}
     # every server-sendable type once as the only sign of life inside a pong window
     for tid in server_types():
         yield {"K": 1.0, "noise": False, "msgs": [[129 + 2 * (tid % 50), tid]], "subscribe": [tid] if tid % 2 else []}
